@@ -52,7 +52,9 @@ Emit == /\ ~done /\ pos <= Len(Txt)
         /\ cur' = Append(cur, Txt[pos]) /\ pos' = pos + 1
         /\ UNCHANGED <<si, lines, nb, nx, first, spans, cmts, done>>
 
-CmtLines == { <<>>, << <<"C", " ", "x">> >>, << <<"*", "'">> >>, << <<"!", " ", "&">>, <<>> >>, << <<"c">> >> }
+\* comment lines: the four styles, a blank line, text that looks like a statement keyword after the C ("Call", "continue")
+CmtLines == { <<>>, << <<"C", " ", "x">> >>, << <<"*", "'">> >>, << <<"!", " ", "&">>, <<>> >>, << <<"c">> >>,
+              << <<"C", "a", "l", "l", " ", "f">> >>, << <<"c", "o", "n", "t", "i", "n", "u", "e">> >> }
 Tagged(b, ln) == LET RECURSIVE F(_, _)
                      F(i, acc) == IF i > Len(b) THEN acc
                                   ELSE IF b[i] # <<>> THEN F(i + 1, Append(acc, <<ln + i, b[i]>>)) ELSE F(i + 1, acc)
